@@ -92,6 +92,9 @@ func checkC05(c *Ctx, r *Report) {
 	// order producer (shared with C06.a)
 	ruleNoReorder(c, r, "C05.c", "(core/metadata.ReceiverMeta).Reduce", "ReceiverMeta.Reduce")
 	ruleNoReorder(c, r, "C05.c", "(*core/arbitrators.AstArbitrator).GetFuncParametersMeta", "GetFuncParametersMeta")
+
+	// C05.h the binding code passes on exactly what the accessor returned, for every element
+	checkBindingDiscipline(c, r, "C05.h")
 }
 
 // checkConversionArms: literals tested by request.switch.param.type are the same in the
@@ -157,6 +160,22 @@ func checkConversionArms(c *Ctx, r *Report, clause string) {
 	ref := perEngine[c.T.Order[0]]
 	for _, en := range c.T.Order[1:] {
 		ruleSetEqual(c, r, clause, "conversion-arms:"+c.T.Order[0]+"=="+en, "the same primitive kinds are converted by every engine", c.T.Order[0]+" arms", ref, en+" arms", perEngine[en], []string{c.T.Engines[en].Partials["RequestSwitchParamType"].File + ":1"})
+	}
+	// the same parse call and width for every arm in every engine (also the unsized int/uint arms)
+	for _, en := range c.T.Order[1:] {
+		viol := ""
+		refEn := c.T.Order[0]
+		for k, v := range bitSizes[refEn] {
+			if got := bitSizes[en][k]; got != v {
+				viol = fmt.Sprintf("%s parses the %s arm with strconv.%s but %s with strconv.%s: the same request value is accepted by one router and answered 422 by the other", en, k, got, refEn, v)
+			}
+		}
+		for k := range bitSizes[en] {
+			if _, ok := bitSizes[refEn][k]; !ok {
+				viol = fmt.Sprintf("%s has a strconv call in arm %s that %s has not", en, k, refEn)
+			}
+		}
+		r.add(clause, "sibling", "conversion-calls:"+refEn+"=="+en, "every conversion arm uses the same strconv call and bit size in all engines", []string{c.T.Engines[en].Partials["RequestSwitchParamType"].File}, []string{c.T.Engines[en].Partials["RequestSwitchParamType"].File + ":1"}, viol)
 	}
 	// bit sizes: the parse width of each sized kind equals the declared width
 	for _, en := range c.T.Order {
@@ -563,4 +582,67 @@ func checkIsContextExact(c *Ctx, r *Report, clause string) {
 		viol = fmt.Sprintf("IsContext is not the exact test Name == \"Context\" && PkgPath == \"context\" (constants %v, fields %v)", keys(consts), keys(fields))
 	}
 	r.add(clause, "fieldflow", fn+":exact", "only context.Context itself is treated as the request context", []string{fn}, sites, viol)
+}
+
+// checkBindingDiscipline: in the two binding partials of every engine (a) no element is
+// skipped (no continue/break/goto), (b) a raw value is defined once, from the accessor,
+// and never re-assigned, (c) the package-level functions applied are the reviewed ones
+// (tables/engines.json binding_calls).
+func checkBindingDiscipline(c *Ctx, r *Report, clause string) {
+	tbl, _ := loadEngineTable(c.VerifDir)
+	allowed := map[string]map[string]bool{}
+	for en, list := range tbl["binding_calls"] {
+		allowed[en] = map[string]bool{}
+		for _, m := range strings.Fields(list) {
+			allowed[en][m] = true
+		}
+	}
+	for _, en := range c.T.Order {
+		eng := c.T.Engines[en]
+		viol := ""
+		var sites []string
+		nCalls := 0
+		for _, pn := range []string{"RequestArgsParsing", "RequestSwitchParamType"} {
+			t := eng.Partials[pn]
+			if t == nil {
+				viol = en + ": " + pn + " missing"
+				continue
+			}
+			sites = append(sites, t.File+":1")
+			toks := goToks(flattenProgram(t.Prog, nil))
+			for i, tk := range toks {
+				switch tk.Tok {
+				case token.CONTINUE, token.GOTO:
+					viol = fmt.Sprintf("%s %s: `%s` in the binding code: elements of a repeated parameter (or whole parameters) can be skipped, so the method receives fewer values than were sent - and an empty or malformed element is no longer answered 422", en, pn, tk.Tok)
+				case token.ASSIGN:
+					// `xRaw = xRawArr[0]` (first of the accessor's values) is the accessor's own result
+					fromAccessorSlice := i+2 < len(toks) && toks[i+1].Tok == token.IDENT && strings.HasPrefix(toks[i+1].Lit, toks[i-1].Lit) && toks[i+2].Tok == token.LBRACK
+					if i > 0 && toks[i-1].Tok == token.IDENT && strings.HasSuffix(toks[i-1].Lit, "Raw") && strings.Contains(toks[i-1].Lit, "M_") && !fromAccessorSlice {
+						viol = fmt.Sprintf("%s %s: the raw value %s is re-assigned after it was read from the request: what reaches conversion is no longer what the accessor returned (extra decoding/normalisation in one engine makes the engines disagree on the same bytes)", en, pn, strings.ReplaceAll(toks[i-1].Lit, "M_", "«"))
+					}
+				case token.IDENT:
+					// pkg.Func( with a lower-case package identifier
+					if i+3 < len(toks) && toks[i+1].Tok == token.PERIOD && toks[i+2].Tok == token.IDENT && toks[i+3].Tok == token.LPAREN && (i == 0 || toks[i-1].Tok != token.PERIOD) {
+						pkg := tk.Lit
+						if strings.Contains(pkg, "M_") || strings.HasSuffix(pkg, "Ctx") || pkg == "req" || pkg == "w" || pkg == "controller" || pkg == "engine" {
+							continue
+						}
+						if pkg != strings.ToLower(pkg) {
+							continue
+						}
+						nCalls++
+						call := pkg + "." + toks[i+2].Lit
+						if !allowed[en][call] {
+							viol = fmt.Sprintf("%s %s: the binding code applies %s, which is not in the reviewed set for this engine (tables/engines.json binding_calls: %v)", en, pn, call, keys(allowed[en]))
+						}
+					}
+				}
+			}
+		}
+		if nCalls < 5 {
+			viol = fmt.Sprintf("%s: only %d package-level calls recognised in the binding partials (floor 5)", en, nCalls)
+		}
+		o := r.add(clause, "vocabulary", en+":binding-discipline", en+": every element is converted, raw values are passed on as read, only reviewed functions are applied", []string{"generator/templates/" + en}, sites, viol)
+		o.NonTrivial = true
+	}
 }
